@@ -21,8 +21,9 @@ type SOp struct {
 	Node int    `json:"node,omitempty"`
 	Ref  string `json:"ref,omitempty"`
 	Task int    `json:"task,omitempty"`
-	How  string `json:"how,omitempty"` // reopen: new | fs | tar
-	Var  int    `json:"var,omitempty"` // tag: the descriptor carries the annotation variant=<Var> (0 = plain)
+	How  string `json:"how,omitempty"`  // reopen: new | fs | tar
+	Var  int    `json:"var,omitempty"`  // tag: the descriptor carries the annotation variant=<Var> (0 = plain)
+	From string `json:"from,omitempty"` // retag: Tag(Resolve(From), Ref), as promoting a tag does
 }
 
 func (o SOp) String() string {
@@ -32,6 +33,8 @@ func (o SOp) String() string {
 			return fmt.Sprintf("tag(n%d#v%d,%q)", o.Node, o.Var, o.Ref)
 		}
 		return fmt.Sprintf("tag(n%d,%q)", o.Node, o.Ref)
+	case "retag":
+		return fmt.Sprintf("retag(%q->%q)", o.From, o.Ref)
 	case "resolve", "untag":
 		return fmt.Sprintf("%s(%q)", o.Op, o.Ref)
 	case "gc", "saveindex", "tags":
@@ -229,6 +232,23 @@ func (m *SModel) Apply(op SOp) SRes {
 			m.indexed[n] = true
 		}
 		return SRes{}
+	case "retag":
+		if op.From == "" && m.kind != "memory" {
+			return SRes{Err: "missingref"}
+		}
+		t, ok := m.tags[op.From]
+		if !ok {
+			return SRes{Err: "notfound"}
+		}
+		if op.Ref == "" && m.kind != "memory" {
+			return SRes{Err: "missingref"}
+		}
+		if !m.present[t] {
+			return SRes{Err: "notfound"}
+		}
+		m.tags[op.Ref] = t
+		m.tagVar[op.Ref] = m.tagVar[op.From]
+		return SRes{}
 	case "resolve":
 		if op.Ref == "" && m.kind != "memory" {
 			return SRes{Err: "missingref"}
@@ -293,8 +313,20 @@ func modelResolveKey(d ocispec.Descriptor, v int) string {
 }
 
 // descVariant is the descriptor a tag operation presents.
-func descVariant(d ocispec.Descriptor, v int) ocispec.Descriptor {
+func (g *Graph) descVariant(d ocispec.Descriptor, v int) ocispec.Descriptor {
 	if v == 0 {
+		return d
+	}
+	// one map per (content, variant) for the life of the graph (= one execution), as a
+	// caller who keeps a descriptor around and tags it under several names presents
+	key := fmt.Sprintf("%s#%d", d.Digest, v)
+	g.varMu.Lock()
+	defer g.varMu.Unlock()
+	if g.varCache == nil {
+		g.varCache = map[string]map[string]string{}
+	}
+	if c, ok := g.varCache[key]; ok {
+		d.Annotations = c
 		return d
 	}
 	ann := map[string]string{}
@@ -303,6 +335,7 @@ func descVariant(d ocispec.Descriptor, v int) ocispec.Descriptor {
 	}
 	ann["variant"] = fmt.Sprint(v)
 	d.Annotations = ann
+	g.varCache[key] = ann
 	return d
 }
 
@@ -471,7 +504,13 @@ func execOp(ctx context.Context, st any, g *Graph, op SOp) SRes {
 		ok, err := st.(content.ReadOnlyStorage).Exists(ctx, node.Desc)
 		return SRes{Err: errClass(err), Bool: ok}
 	case "tag":
-		return SRes{Err: errClass(st.(content.Tagger).Tag(ctx, descVariant(node.Desc, op.Var), op.Ref))}
+		return SRes{Err: errClass(st.(content.Tagger).Tag(ctx, g.descVariant(node.Desc, op.Var), op.Ref))}
+	case "retag":
+		d, err := st.(content.Resolver).Resolve(ctx, op.From)
+		if err != nil {
+			return SRes{Err: errClass(err)}
+		}
+		return SRes{Err: errClass(st.(content.Tagger).Tag(ctx, d, op.Ref))}
 	case "resolve":
 		d, err := st.(content.Resolver).Resolve(ctx, op.Ref)
 		if err != nil {
